@@ -346,6 +346,17 @@ fn run_from_poly(case: u64, rng: &mut Rng, ev: &mut Ev) {
         }
         p.bias[i] = *rng.pick(&[-1.0, -0.5, 1.0, 0.0, -0.0, -3.0]);
     }
+    // 8 %: the polytope is written in other units - every row and its bias multiplied by the same power of
+    // two between 2^-70 and 2^520 (exact; the same set)
+    if rng.chance(0.08) {
+        let sc = 2f64.powi(*rng.pick(&[-70, -40, 60, 200, 520]));
+        for i in 0..p.mat.len() {
+            for v in p.mat[i].iter_mut() {
+                *v *= sc;
+            }
+            p.bias[i] *= sc;
+        }
+    }
     let out = 1 + rng.below(2);
     let ft = gen::aff(rng, out, n, rg);
     let ff = if rng.chance(0.5) { Some(gen::aff(rng, out, n, rg)) } else { None };
@@ -363,6 +374,10 @@ fn run_from_poly(case: u64, rng: &mut Rng, ev: &mut Ev) {
             return;
         }
     };
+    if tree.in_dim() != n {
+        ev.violation(case, "c17:from_poly:in_dim", "", json!({"case": desc, "in_dim": tree.in_dim(), "expected": n}));
+        return;
+    }
     let mut pts = gen::lattice(rng, n, 3, 1.0, 80);
     pts.extend(gen::lattice(rng, n, 4, 0.5, 40));
     let mut nb = 0;
